@@ -170,7 +170,7 @@ def one_file(ctx, cid, rng, idx):
             if extra_col:
                 c.check("score" in pt.columns and pt["score"].tolist() == [scores[nm][kk] for kk in sorted(P)],
                         "cell-extra-column-differs", f"cell {nm}: extra pixel column differs from the one given")
-            c.check(str(pt["count"].dtype) == ("float64" if float_counts else "int32"), "cell-count-dtype",
+            c.check(str(pt["count"].dtype) == "float64" if float_counts else pt["count"].dtype.kind in "iu", "cell-count-dtype",
                     f"cell {nm}: count stored as {pt['count'].dtype}")
             m = clr.matrix(balance=False)[:, :]
             c.check(np.array_equal(m, model.dense(P, n, symm)), "cell-matrix-differs", f"cell {nm}: full matrix differs")
